@@ -160,7 +160,7 @@ Section Decisions.
   Definition action_decision (s : sim) (id : Z) (u : unit) : Z * Z * bool :=   (* evaluator, attack type, fallback *)
     let '(d, _) := pop_next (next_q s) id in
     let want_skill := dc_type d =? 1 in
-    let can := uspneed u <=? sp s in
+    let can := can_skill u s in      (* enough skill points and, if registered, the character's own check *)
     if want_skill && negb can then (100, ATYPE_NORMAL, true)
     else (dc_eval d, if want_skill then ATYPE_SKILL else ATYPE_NORMAL, false).
 
@@ -186,8 +186,8 @@ Section Decisions.
     unfold action_decision.
     destruct (pop_next (next_q s) id) as [d q] eqn:EN.
     set (s1 := emit (set_next s q) [VNextAction id (dc_type d) (dc_eval d)]) in *.
-    change (sp s1) with (sp s) in H.
-    destruct ((dc_type d =? 1) && negb (uspneed u <=? sp s)) eqn:ED.
+    change (can_skill u s1) with (can_skill u s) in H.
+    destruct ((dc_type d =? 1) && negb (can_skill u s)) eqn:ED.
     - set (s2 := emit s1 [VDefaultAction id]) in *.
       destruct (evaluate s2 id 100 (utt_a u)) as [p|] eqn:EV; [|discriminate].
       destruct (pop_act cfg _ id) as [sc s4] eqn:EPA.
@@ -230,7 +230,8 @@ Section Decisions.
         cbn [trace emit s1 set_next]. rewrite Hk. rewrite <- !app_assoc. cbn. reflexivity. }
       split; [discriminate|]. split.
       { unfold atype. destruct (dc_type d =? 1) eqn:E1; [|discriminate]. intros _.
-        cbn [andb] in ED. apply negb_false_iff in ED. apply Z.leb_le. exact ED. }
+        cbn [andb] in ED. apply negb_false_iff in ED. unfold can_skill in ED.
+        apply andb_true_iff in ED. destruct ED as [ED _]. apply Z.leb_le. exact ED. }
       exists s1. split; [|repeat split].
       unfold atype. destruct (dc_type d =? 1); exact EV.
   Qed.
@@ -250,7 +251,8 @@ Section Decisions.
   Definition ult_request_statement : Prop := forall s r rest s',
     ult_reqs s (r :: rest) = Ok s' ->
     exists u, get_unit (units s) (ur_target r) = Some u /\ uchar u = true /\
-      let full := PrimFloat.eqb (PrimFloat.div (uen u) (umaxen u)) 1 in
+      (* "could use it": full energy, or what the character's own Ult.CanUse check answers *)
+      let full := can_ult u in
       exists s1, ult_reqs s1 rest = Ok s' /\
         (full = false -> s1 = s) /\
         (full = true ->
@@ -262,7 +264,7 @@ Section Decisions.
     intros s r rest s'. cbn [ult_reqs]. destruct (get_unit (units s) (ur_target r)) as [u|]; [|discriminate].
     destruct (uchar u) eqn:EC; cbn [negb]; [|discriminate].
     intros H. exists u. rewrite EC. split; [reflexivity|]. split; [reflexivity|]. cbn zeta.
-    destruct (PrimFloat.eqb _ 1); eexists; (split; [exact H|]); split; congruence.
+    destruct (can_ult u); eexists; (split; [exact H|]); split; congruence.
   Qed.
 End Decisions.
 
@@ -270,8 +272,8 @@ End Decisions.
    a credit-less skill), an ult request honoured once *)
 Definition demo_cfg2 : config :=
   mkCfg
-    [mkUD 3 true 100 1000 100 100 3 0 TEnemies TEnemies TEnemies [0%nat; 0%nat; 0%nat];
-     mkUD 400 false 80 320 0 0 0 0 TEnemies TEnemies TEnemies [1%nat]]
+    [mkUD 3 true 100 1000 100 100 3 0 TEnemies TEnemies TEnemies [0%nat; 0%nat; 0%nat] [] [];
+     mkUD 400 false 80 320 0 0 0 0 TEnemies TEnemies TEnemies [1%nat] [] []]
     [[SAttack 3 [TPrimary] true 30];
      [SAttack 4 [TId 1] true 10]]
     [(1, [mkDec 1 101; mkDec 1 102; mkDec 0 100])] [[mkUR 1 3 100]] [] [] [] [] [] [] [] [] 3 4.
